@@ -2,6 +2,7 @@
 import verif
 from verif import Unit, rc_params
 
+ENGINE = "enumeration+rapidcheck"
 ID = "C15"
 TECHNIQUE = "exhaustive enumeration of all short byte strings + rapidcheck random strings; inverse/alphabet oracles with independent reference codecs under ASan/UBSan"
 LEVEL = "exploration"
